@@ -182,7 +182,7 @@ def check_theorems(ctx, modules):
     # parse: "'X' depends on axioms: [a, b]" / "'X' does not depend on any axioms"
     text = out.replace('\n ', ' ')
     seen = {}
-    for m in re.finditer(r"'([^']+)' (does not depend on any axioms|depends on axioms: \[([^\]]*)\])", text):
+    for m in re.finditer(r"'(\S+)' (does not depend on any axioms|depends on axioms: \[([^\]]*)\])", text):
         seen[m.group(1)] = set(a.strip() for a in (m.group(3) or '').split(',') if a.strip())
     for mod, n in names:
         if n not in seen:
